@@ -103,6 +103,9 @@ def main(tier):
         for pi, par in enumerate(pars):
             try:
                 got = kernel.call_impl(core, c, par)
+            except kernel.InputModified as e:
+                chk.violation(dict(clause="modified-its-arguments", argument=str(e)), f"derivatives changed the caller's {e} array in place (the same aggregate state evaluated again gives other rates)", dict(case=c, par=par))
+                continue
             except Exception as e:  # noqa: BLE001
                 chk.violation(dict(clause="raised", fabric=c["fab"], regime=c["regime"], exc=type(e).__name__), f"derivatives raised {e!r} on a resolvable case", dict(case=c, par=par))
                 continue
@@ -148,9 +151,12 @@ def main(tier):
     # negative control: a perturbed expectation (role swap in the program) must be flagged
     probe = Check("C02", tier, dry=True)
     c = dict(usable[7])
-    bad = np.array(kernel.call_impl(core, c, grid[0])[0]) * 1.001 + 1e-6
-    compare(probe, c, grid[0], (bad, kernel.call_impl(core, c, grid[0])[1]), "jit")
-    chk.control("perturbed-rate-detected", len(probe.violations) >= 1, impl_dependent=True)
+    try:
+        bad = np.array(kernel.call_impl(core, c, grid[0])[0]) * 1.001 + 1e-6
+        compare(probe, c, grid[0], (bad, kernel.call_impl(core, c, grid[0])[1]), "jit")
+        chk.control("perturbed-rate-detected", len(probe.violations) >= 1, impl_dependent=True)
+    except Exception as e:  # noqa: BLE001 - the control needs a working call; what stopped it has been reported above
+        chk.cov["negative_controls"].append(dict(control="perturbed-rate-detected", fired=False, detail=f"not run: {type(e).__name__}"))
     return chk.finish(
         rule="cases enumerated by TLC (DRexGen); distinct by (fabric, regime, velocity gradient, orientations, volumes) x parameter point; ties / unresolved grains are skipped and counted",
         exhaustive=False,
